@@ -99,7 +99,8 @@ CHECKS = {
                      'identification / state-setter entry points, no mock of the code under test'),
     'C15': dict(engine=ENGINE_L1, technique='runtime monitoring: reference-model monitor on the real '
                 'ApplicationStatus + audit-hook (sys.addaudithook) and before/after snapshot monitors around formula '
-                'evaluation',
+                'evaluation; plus, on clusters of real instances (L3), the application state / failures each instance '
+                'reports at quiescence against the definition over the process states the same instance reports',
                 text='held on every generated state vector and formula: state and major/minor failure equal the '
                      'definition, valid formulas equal an independent evaluator, hostile formulas raise nothing, '
                      'execute nothing (audit events) and change nothing', ref='8/C15',
